@@ -211,4 +211,53 @@ theorem even_modulus_crt (n : Nat) (bp ep modd rodd : List Nat) (nodd ncnt cnt :
 example : powmEven 1 [5] [3] [3] 1 1 2 (toLimbs 1 (5 ^ 3 % 3)) = [5 ^ 3 % 12] := by decide +kernel
 example : powmEven 2 [7] [2] [3] 1 1 0 (toLimbs 1 (7 ^ 2 % 3)) = [49, 0] ∧ tbits 1 0 = 64 := by decide +kernel
 
+
+/-- mpn_redc_1 (mpn/generic/redc_1.c), limb-level model: the loop of `addmul_1` with `q = tp[0]·Nprim`,
+    the parked carries, `mpn_add_n` and the conditional `mpn_sub_n`.
+    For every `n ≥ 1`, every `tp` of `2n` limbs, every modulus with `Nprim·m[0] ≡ −1 (mod B)` (so `m` is odd):
+    * the result has `n` proper limbs (`< B^n`);
+    * `result · B^n ≡ T (mod m)`, i.e. `result ≡ T·B^{-n}`; more exactly `B^n·r + k·B^n·m = T + Q·m` with
+      `Q < B^n`, `k ∈ {0,1}`;
+    * if `T < B^n` (the conversion out of Montgomery form at the end of mpn_powm) then `result ≤ m`.
+    Note: DESIGN.md states `result < m`; that is *not* a property of MPIR's redc_1 — it subtracts `m` only
+    on a carry out of `B^n`, so for `T < m·B^n` the result lies in `[0, B^n)` and may be `≥ m` (example
+    below).  mpn_powm only needs residues below `B^n` and canonicalises once at the end. -/
+theorem redc_1_spec (tp mp : List Nat) (invm : Nat) (hn : 1 ≤ mp.length) (htp : Limbs tp) (hmp : Limbs mp)
+    (hlen : tp.length = 2 * mp.length) (hinv : (invm * mp.headD 0) % B = B - 1) :
+    Limbs (redc_1 tp mp invm) ∧ (redc_1 tp mp invm).length = mp.length ∧
+    val (redc_1 tp mp invm) < B ^ mp.length ∧
+    (val (redc_1 tp mp invm) * B ^ mp.length ≡ val tp [MOD val mp]) ∧
+    (∃ Q k, Q < B ^ mp.length ∧ k ≤ 1 ∧
+      B ^ mp.length * val (redc_1 tp mp invm) + k * (B ^ mp.length * val mp) = val tp + Q * val mp) ∧
+    (val tp < B ^ mp.length → val (redc_1 tp mp invm) ≤ val mp) := by
+  obtain ⟨Q, k, hQ, hk, he, hL, hlen'⟩ := redc_1_identity tp mp invm hn htp hmp hlen hinv
+  have hlt := val_lt _ hL
+  rw [hlen'] at hlt
+  refine ⟨hL, hlen', hlt, ?_, ⟨Q, k, hQ, hk, he⟩, ?_⟩
+  · -- r·B^n + (k·B^n)·m = T + Q·m
+    have h1 : val (redc_1 tp mp invm) * B ^ mp.length + (k * B ^ mp.length) * val mp ≡ val tp + Q * val mp [MOD val mp] := by
+      have : val (redc_1 tp mp invm) * B ^ mp.length + (k * B ^ mp.length) * val mp = val tp + Q * val mp := by
+        rw [← he]; ring
+      rw [this]
+    have h2 : val (redc_1 tp mp invm) * B ^ mp.length + (k * B ^ mp.length) * val mp ≡ val (redc_1 tp mp invm) * B ^ mp.length [MOD val mp] := by
+      unfold Nat.ModEq; rw [Nat.add_mul_mod_self_right]
+    have h3 : val tp + Q * val mp ≡ val tp [MOD val mp] := by
+      unfold Nat.ModEq; rw [Nat.add_mul_mod_self_right]
+    exact h2.symm.trans (h1.trans h3)
+  · intro hT
+    set N := B ^ mp.length with hN
+    have hNpos : 0 < N := Nat.pow_pos B_pos
+    have h1 : N * (val (redc_1 tp mp invm) + k * val mp) < N * (1 + val mp) := by
+      have e : N * (val (redc_1 tp mp invm) + k * val mp) = val tp + Q * val mp := by rw [← he]; ring
+      have : Q * val mp ≤ N * val mp := Nat.mul_le_mul_right _ (le_of_lt hQ)
+      rw [e, Nat.mul_add, Nat.mul_one]; omega
+    have := Nat.lt_of_mul_lt_mul_left h1
+    have hk0 : 0 ≤ k * val mp := Nat.zero_le _
+    omega
+
+-- non-vacuity: m = 3, Nprim = −3⁻¹ = 0x5555555555555555, T = 2·B + 1 < m·B: the result is 3 = m, not < m
+example : redc_1 [1, 2] [3] 0x5555555555555555 = [3] ∧ (0x5555555555555555 * 3) % B = B - 1 := by decide +kernel
+-- a carry out of B^n: T = B^2 − 1, m = B − 1 (Nprim = 1)
+example : redc_1 [B - 1, B - 1] [B - 1] 1 = [B - 1] := by decide +kernel
+
 end Mpir.Powm
